@@ -47,8 +47,12 @@ fn header_kernel(steps: &[Step], reader_version: u8) {
     }
     let header_len = b.n;
     let payload: [u8; 8] = sym::bytes();
-    let mut j = 0;
-    while j < total + 2 { b.u8(payload[j]); j += 1; }
+    // loop-free copy of total + 2 payload bytes (keeps the unwinding bound at the header length)
+    let n = total + 2;
+    if n > 0 { b.u8(payload[0]); } if n > 1 { b.u8(payload[1]); } if n > 2 { b.u8(payload[2]); }
+    if n > 3 { b.u8(payload[3]); } if n > 4 { b.u8(payload[4]); } if n > 5 { b.u8(payload[5]); }
+    if n > 6 { b.u8(payload[6]); } if n > 7 { b.u8(payload[7]); }
+    assert!(n <= 8);
     let meta = reader_metadata(reader_version);
     let mut ctx = DeserializationContext::new(&b.b[..b.n]);
     let stored_version = (steps.len() - 1) as u8;
@@ -103,7 +107,7 @@ fn header_kernel(steps: &[Step], reader_version: u8) {
 
 macro_rules! header {
     ($name:ident, $rv:expr, [$($s:expr),+]) => {
-        proof! { fn $name() unwind(8) { header_kernel(&[$($s),+], $rv); } }
+        proof! { fn $name() unwind(6) { header_kernel(&[$($s),+], $rv); } }
     };
 }
 
